@@ -6,12 +6,12 @@
    A finite binary32 value is an integer multiple of 2^-149: the test scales
    every coordinate to that integer and compares integers:
        |c| <= 2^20                    <=>  |C| <= 2^169
-       equal, or 2^-10 apart (exact)  <=>  equal, or dX^2 + dY^2 >= 2^278. *)
+       equal, or 2^-60 apart (exact)  <=>  equal, or dX^2 + dY^2 >= 2^178. *)
 From RM Require Import Model.Encode Model.CurveDist.
 From RM Require Model.DrvEnc Model.Curve.
 From RM Require Import Proofs.LengthBound Proofs.AdjustExact Proofs.AdjustIEEEBase Proofs.AdjustIEEE Proofs.AdjustIEEESum
      Proofs.DecodedObjects Proofs.EncodeTotal
-     Proofs.CatmullSurplusLoop Proofs.CatmullSurplus Proofs.CatmullSurplusEncode.
+     Proofs.CatmullSurplusSeg Proofs.CatmullSurplusLoop Proofs.CatmullSurplus Proofs.CatmullSurplusEncode.
 From Flocq Require Import Core BinarySingleNaN.
 From Coq Require Import Reals Lra Lia ZArith List Bool.
 Import ListNotations.
@@ -48,7 +48,7 @@ Definition spos (p : Curve.Pos) : option (Z * Z) :=
 Definition coordb (q : Z * Z) : bool := ((Z.abs (fst q) <=? 2 ^ 169) && (Z.abs (snd q) <=? 2 ^ 169))%Z.
 
 Definition segb (a b : Z * Z) : bool :=
-  (((fst a =? fst b) && (snd a =? snd b)) || (2 ^ 278 <=? (fst b - fst a) ^ 2 + (snd b - snd a) ^ 2))%Z.
+  (((fst a =? fst b) && (snd a =? snd b)) || (2 ^ 178 <=? (fst b - fst a) ^ 2 + (snd b - snd a) ^ 2))%Z.
 
 Lemma scaled_bnd x X : scaled x = Some X -> (Z.abs X <= 2 ^ 169)%Z -> bnd32 x 20.
 Proof.
@@ -69,7 +69,7 @@ Proof.
   split; [exact (scaled_bnd _ _ Ex Hx)|exact (scaled_bnd _ _ Ey Hy)].
 Qed.
 
-Lemma segb_sound a b qa qb : spos a = Some qa -> spos b = Some qb -> segb qa qb = true -> seg_ok a b.
+Lemma segb_sound a b qa qb : spos a = Some qa -> spos b = Some qb -> segb qa qb = true -> cseg_ok a b.
 Proof.
   unfold spos, segb.
   destruct (scaled (Curve.px a)) as [xa|] eqn:Exa; [|discriminate].
@@ -83,16 +83,16 @@ Proof.
   - apply andb_true_iff in H. destruct H as (Hx & Hy). apply Z.eqb_eq in Hx. apply Z.eqb_eq in Hy. subst.
     left. unfold R2. rewrite Rxa, Rya, Rxb, Ryb. reflexivity.
   - apply Z.leb_le in H. right.
-    assert (P : (pw (-10) = sqrt (pw (-20)))%R).
-    { change (-20)%Z with (-10 + -10)%Z. rewrite bpow_plus, sqrt_square; [reflexivity|left; apply bpow_gt_0]. }
+    assert (P : (pw (-60) = sqrt (pw (-120)))%R).
+    { change (-120)%Z with (-60 + -60)%Z. rewrite bpow_plus, sqrt_square; [reflexivity|left; apply bpow_gt_0]. }
     rewrite P. unfold edist. apply sqrt_le_1_alt. cbn [R2 fst snd]. rewrite Rxa, Rya, Rxb, Ryb.
     replace ((IZR xb * pw (-149) - IZR xa * pw (-149)) ^ 2 + (IZR yb * pw (-149) - IZR ya * pw (-149)) ^ 2)%R
       with (IZR ((xb - xa) ^ 2 + (yb - ya) ^ 2) * (pw (-149) * pw (-149)))%R.
     2:{ rewrite plus_IZR. change 2%Z with (Z.of_nat 2). rewrite <- !pow_IZR, !minus_IZR. ring. }
     rewrite <- bpow_plus. change (-149 + -149)%Z with (-298)%Z.
-    replace (pw (-20)) with (IZR (2 ^ 278) * pw (-298))%R.
+    replace (pw (-120)) with (IZR (2 ^ 178) * pw (-298))%R.
     + apply Rmult_le_compat_r; [left; apply bpow_gt_0|]. apply IZR_le. exact H.
-    + change (2 ^ 278)%Z with (radix2 ^ 278)%Z. rewrite (IZR_Zpower radix2 278) by lia.
+    + change (2 ^ 178)%Z with (radix2 ^ 178)%Z. rewrite (IZR_Zpower radix2 178) by lia.
       rewrite <- bpow_plus. reflexivity.
 Qed.
 
@@ -120,7 +120,7 @@ Proof.
   constructor; [exact (coordb_sound p q E H1)|exact (IH H2)].
 Qed.
 
-Lemma cat_segsb_sound cat : cat_segsb cat = true -> segs_ok cat.
+Lemma cat_segsb_sound cat : cat_segsb cat = true -> csegs_ok cat.
 Proof.
   induction cat as [|a [|b t] IH]; try (intros; exact I).
   change (cat_segsb (a :: b :: t)) with
